@@ -84,7 +84,7 @@ class ProvideNode(BaseNode):
     end_tag = "endprovide"
     allowed_flags = []
 
-    def render(self, context: Context, name: str, **kwargs: Any) -> SafeString:
+    def render(self, context: Context, /, name: str, **kwargs: Any) -> SafeString:
         # NOTE: The "provided" kwargs are meant to be shared privately, meaning that components
         # have to explicitly opt in by using the `Component.inject()` method. That's why we don't
         # add the provided kwargs into the Context.
